@@ -399,6 +399,149 @@ fn queue_case<W: Num>(run: &mut Run, rng: &mut Rng) {
     run.describe(|| desc);
 }
 
+/// Bit coders over sinks whose writes can fail (bounded cursor; sink with an injected transient
+/// fault; sink with a capacity): a bit whose `write_bit` returned `Err` was not written, and every
+/// bit whose `write_bit` returned `Ok` still comes back in order. Only single-bit writes are used
+/// here, so no partially written code word can blur what "written" means.
+fn failing_stack<W: Num, B>(run: &mut Run, rng: &mut Rng, backend: B, what: &str)
+where
+    B: constriction::backends::WriteWords<W> + constriction::backends::BoundedReadWords<W, constriction::Stack>,
+    B::ReadError: core::fmt::Debug,
+{
+    let wb = W::NBITS as usize;
+    let mut st = match StackCoder::<W, B>::from_compressed(backend) {
+        Ok(s) => s,
+        Err(_) => {
+            run.violation("bit-container", "C16/from_compressed-empty", format!("{what}: from_compressed on an empty backend failed"));
+            return;
+        }
+    };
+    let mut shadow: Vec<bool> = Vec::new();
+    let mut log = String::new();
+    let n = rng.usize_in(wb, 5 * wb + 8);
+    let mut refused = 0u64;
+    let read_16 = *rng.pick(&[0u64, 2, 5]);
+    for _ in 0..n {
+        if rng.below(16) < read_16 {
+            let g = match st.read_bit() {
+                Ok(g) => g,
+                Err(e) => {
+                    run.violation("bit-container", "C16/read-error", format!("{what}: read_bit failed: {e:?}"));
+                    return;
+                }
+            };
+            log.push('r');
+            if g != shadow.pop() {
+                run.violation("bit-container", "C16/stack-order-after-refused-write", format!("{what} StackCoder<{}> ops {log} :: read {g:?}; {refused} writes were refused before", W::NAME));
+                return;
+            }
+        } else {
+            let b = rng.bool();
+            match st.write_bit(b) {
+                Ok(()) => {
+                    shadow.push(b);
+                    log.push(if b { '1' } else { '0' });
+                }
+                Err(_) => {
+                    refused += 1;
+                    log.push('!');
+                }
+            }
+        }
+        if st.len() != shadow.len() {
+            run.violation("bit-container", "C16/len-after-refused-write", format!("{what} StackCoder<{}> ops {log} :: len()={} with {} bits accepted", W::NAME, st.len(), shadow.len()));
+            return;
+        }
+    }
+    // everything accepted comes back, in reverse
+    while let Some(e) = shadow.pop() {
+        let g = st.read_bit().ok().flatten();
+        if g != Some(e) {
+            run.violation("bit-container", "C16/stack-order-after-refused-write", format!("{what} StackCoder<{}> ops {log} :: draining read {g:?}, expected {e}; {refused} writes were refused", W::NAME));
+            return;
+        }
+    }
+    if !st.is_empty() || st.read_bit().ok().flatten().is_some() {
+        run.violation("bit-container", "C16/stack-order-after-refused-write", format!("{what} StackCoder<{}> ops {log} :: not empty after draining", W::NAME));
+        return;
+    }
+    run.count("refused_bit_writes", refused);
+    if refused > 0 {
+        run.count("cases_with_refused_writes", 1);
+        run.nontrivial();
+    }
+    run.h(refused << 8 | wb as u64);
+    run.describe(|| format!("{what} StackCoder<{}> {log}", W::NAME));
+}
+
+fn failing_case<W: Num>(run: &mut Run, rng: &mut Rng) {
+    use crate::obsbackend::FaultyBackend;
+    let wb = W::NBITS as usize;
+    run.count("failing_backend_cases", 1);
+    run.h(3 << 60 | wb as u64);
+    match rng.below(4) {
+        0 => {
+            let cap = rng.usize_in(0, 3);
+            failing_stack::<W, _>(run, rng, Cursor::new_at_write_beginning(vec![W::of(0); cap]), "bounded cursor");
+        }
+        1 => {
+            let k = rng.below(4) + 1;
+            failing_stack::<W, _>(run, rng, FaultyBackend::<W>::new(Some(k), None), "transient fault");
+        }
+        2 => {
+            let cap = rng.usize_in(0, 3);
+            failing_stack::<W, _>(run, rng, FaultyBackend::<W>::new(None, Some(cap)), "capacity");
+        }
+        _ => {
+            // queue encoder over a sink with one transient fault
+            let k = rng.below(4) + 1;
+            let mut qu = QueueEncoder::<W, FaultyBackend<W>>::from_compressed(FaultyBackend::new(Some(k), None));
+            let mut shadow: Vec<bool> = Vec::new();
+            let mut log = String::new();
+            let n = rng.usize_in(wb, 5 * wb + 8);
+            let mut refused = 0u64;
+            for _ in 0..n {
+                let b = rng.bool();
+                match qu.write_bit(b) {
+                    Ok(()) => {
+                        shadow.push(b);
+                        log.push(if b { '1' } else { '0' });
+                    }
+                    Err(_) => {
+                        refused += 1;
+                        log.push('!');
+                    }
+                }
+                if qu.len() != shadow.len() {
+                    run.violation("bit-container", "C16/len-after-refused-write", format!("QueueEncoder<{}> ops {log} :: len()={} with {} bits accepted", W::NAME, qu.len(), shadow.len()));
+                    return;
+                }
+            }
+            match qu.into_compressed() {
+                Ok(b) => {
+                    let mut got: Vec<bool> = Vec::new();
+                    for wd in &b.v {
+                        for i in 0..wb {
+                            got.push((wd.as_u() >> i) & 1 == 1);
+                        }
+                    }
+                    if got.len() != shadow.len().div_ceil(wb) * wb || got[..shadow.len()] != shadow[..] || got[shadow.len()..].iter().any(|&x| x) {
+                        run.violation("bit-container", "C16/queue-order-after-refused-write", format!("QueueEncoder<{}> ops {log} :: exported words do not hold the accepted bits; {refused} writes were refused", W::NAME));
+                        return;
+                    }
+                }
+                Err(_) => run.count("final_flush_refused", 1),
+            }
+            run.count("refused_bit_writes", refused);
+            if refused > 0 {
+                run.count("cases_with_refused_writes", 1);
+                run.nontrivial();
+            }
+            run.describe(|| format!("QueueEncoder<{}> over faulty sink {log}", W::NAME));
+        }
+    }
+}
+
 /// Exp-Golomb round trips: exhaustive for u8 and (thorough) u16, edges for u32/u64, through
 /// both prefix and suffix forms and both containers.
 pub fn exp_golomb_sweep(run: &mut Run) {
@@ -492,7 +635,9 @@ pub fn case(run: &mut Run, rng: &mut Rng) {
             }
         };
     }
-    if rng.chance(3, 5) {
+    if rng.chance(1, 8) {
+        by_word!(failing_case)
+    } else if rng.chance(3, 5) {
         by_word!(stack_case)
     } else {
         by_word!(queue_case)
